@@ -1295,7 +1295,13 @@ class MultiAgentRLAlgorithm(EvolvableAlgorithm, ABC):
         :rtype: torch.Tensor[float] or dict[str, torch.Tensor[float]] or Tuple[torch.Tensor[float], ...]
         """
         preprocessed = {}
-        for agent_id, obs in observation.items():
+        # NOTE: Callers pair the result with self.agent_ids by position, so follow that
+        # order rather than the insertion order of the observation dictionary
+        ordered_ids = [a for a in self.agent_ids if a in observation] + [
+            a for a in observation if a not in self.agent_ids
+        ]
+        for agent_id in ordered_ids:
+            obs = observation[agent_id]
             preprocessed[agent_id] = preprocess_observation(
                 observation=obs,
                 observation_space=self.observation_space.get(agent_id),
